@@ -490,7 +490,7 @@ def _relabel_mutations_node(
 
     insert_position = edges_left[insert_index]
     remove_position = edges_right[remove_index]
-    sequence_length = remove_position[-1]
+    sequence_length = remove_position[-1] if num_edges > 0 else 0.0
 
     output = np.full(num_mutations, tskit.NULL, dtype=np.int32)
     # a node that has no edge (yet) keeps its id, e.g. a mutation above an isolated sample
